@@ -10,6 +10,7 @@ import SltVerif.Subst
 import SltVerif.Cli
 import SltVerif.CliTrace
 import SltVerif.Extern
+import SltVerif.EngineCmd
 import Driver.Codec
 import Driver.Db
 namespace Drv
@@ -699,6 +700,9 @@ def dispatchOp (line : String) : String :=
       | "frame" => opFrame.run rest
       | "testdir" => (do let _ ← nat; pure "distinct=1 same=1 exist=1 gone=1 par_ok=1 par_db=1 par_same=1 par_distinct=1 par_gone=1 parent_alive=1" : Rd String).run rest
       | "sleepprobe" => (do let _ ← nat; let _ ← nat; pure "ok" : Rd String).run rest
+      | "cmdtmpl" => (do
+          let tmpl ← bytes; let db ← bytes; let host ← bytes; let port ← bytes; let user ← bytes; let pass ← bytes
+          pure (hxBytes (expandCmd { db, host, port, user, pass } tmpl)) : Rd String).run rest
       | "note" => .ok ("ok", [])   -- a run judged by an oracle on the implementation alone
       | "climon" => opCliMon.run rest
       | "clitrace" => opCliTrace.run rest
